@@ -126,7 +126,7 @@ PROPS["C14"] = dict(
         rapid("Inline", "TestInline", 20000, 600000),
         # what a frame contains is counted, not timed: a malformed or leaking frame is reported even when the schedule that
         # produced it (items built concurrently) does not recur in the confirmation replay
-        rapid("Frames", "TestFrames", 800, 40000, shards=(8, 16), config_toml=_NET, timeout=dict(quick=600, thorough=3000),
+        rapid("Frames", "TestFrames", 800, 16000, shards=(8, 16), config_toml=_NET, timeout=dict(quick=600, thorough=3000),
               retry_confirm=4, trust_unconfirmed=r"not well-formed terminal text|still active at|is not the frame of the current state"),
     ],
     manifest=dict(
@@ -154,9 +154,9 @@ PROPS["C16"] = dict(
         enum("GeomEnum", "TestGeomEnum"),
         # a frame of the wrong height cannot be a timing artefact of the harness (frames are counted, not timed), so such a
         # failure is reported even when it depends on the schedule and does not reproduce from the saved case
-        rapid("Frames", "TestFrames", 1600, 60000, shards=(8, 16), config_toml=_NET, timeout=dict(quick=600, thorough=3000),
+        rapid("Frames", "TestFrames", 1600, 24000, shards=(8, 16), config_toml=_NET, timeout=dict(quick=600, thorough=3000),
               retry_confirm=4, trust_unconfirmed=r"terminal has \d+ lines|is not the frame of the current state"),
-        rapid("Resizes", "TestResizes", 320, 12000, shards=(8, 16), config_toml=_NET, timeout=dict(quick=600, thorough=3000),
+        rapid("Resizes", "TestResizes", 320, 5000, shards=(8, 16), config_toml=_NET, timeout=dict(quick=600, thorough=3000),
               retry_confirm=4, trust_unconfirmed=r"is not the frame of the current state|two frames were being emitted"),
     ],
     exhaustive_claim=["GeomEnum"],
@@ -184,7 +184,7 @@ PROPS["C12"] = dict(
     helpers=("argdump",),
     units=[
         rapid("Prop", "TestProp", 24000, 600000),
-        rapid("Typed", "TestTyped", 1200, 30000, shards=(8, 16), config_toml=_NET + "cache_size = 16\n"),
+        rapid("Typed", "TestTyped", 1200, 16000, shards=(8, 16), config_toml=_NET + "cache_size = 16\n"),
     ],
     manifest=dict(
         text=("Property-based testing with ground truth by construction: generator-assigned unique labels and targets, the shown "
@@ -206,7 +206,7 @@ PROPS["C15"] = dict(
           "has a token longer than one of the widths and the sequence revisits a width after a different one. Distinct = distinct "
           "(document, width sequence)."),
     units=[
-        rapid("Prop", "TestProp", 8000, 300000),
+        rapid("Prop", "TestProp", 8000, 150000),
     ],
     manifest=dict(
         text=("Stateful property-based test over render histories with two oracles: the width bound measured by an independent "
@@ -232,7 +232,7 @@ PROPS["C06"] = dict(
     units=[
         rapid("Prop", "TestProp", 12000, 200000, timeout=dict(quick=600, thorough=3000)),
         rapid("Deep", "TestDeep", 1200, 10000, timeout=dict(quick=600, thorough=3000)),
-        rapid("Served", "TestServed", 2400, 60000, shards=(8, 16), config_toml=_NET + "cache_size = 8\n", timeout=dict(quick=600, thorough=3000)),
+        rapid("Served", "TestServed", 2400, 30000, shards=(8, 16), config_toml=_NET + "cache_size = 8\n", timeout=dict(quick=600, thorough=3000)),
         fuzz("Fuzz", "FuzzRender", "180s"),
     ],
     manifest=dict(
@@ -260,10 +260,10 @@ PROPS["C01"] = dict(
           "document carries at least one hostile token that survives JSON-level sanitising (character reference, attribute, markdown). "
           "Distinct = distinct (document, widths)."),
     units=[
-        rapid("Items", "TestItems", 12000, 200000),
-        rapid("Render", "TestRender", 20000, 400000),
-        rapid("Net", "TestNet", 4000, 160000, config_toml=_NET),
-        rapid("Frames", "TestFrames", 800, 40000, shards=(8, 16), config_toml=_NET, timeout=dict(quick=600, thorough=3000),
+        rapid("Items", "TestItems", 12000, 100000),
+        rapid("Render", "TestRender", 20000, 200000),
+        rapid("Net", "TestNet", 4000, 60000, config_toml=_NET),
+        rapid("Frames", "TestFrames", 800, 16000, shards=(8, 16), config_toml=_NET, timeout=dict(quick=600, thorough=3000),
               retry_confirm=4, trust_unconfirmed=r"is not terminal-clean|is not the frame of the current state"),
         fuzz("Fuzz", "FuzzRender", "180s"),
     ],
@@ -337,9 +337,9 @@ PROPS["C04"] = dict(
     units=[
         # what a listener received is recorded, not timed: a malformed or surplus request is reported even if it only
         # arises from what an earlier fetch left behind in a way the replay cannot force (pooled buffers, GC)
-        rapid("Prop", "TestProp", 8000, 300000, config_toml=_NET + "cache_size = 1\n",
+        rapid("Prop", "TestProp", 8000, 150000, config_toml=_NET + "cache_size = 1\n",
               retry_confirm=3, trust_unconfirmed=r"^request is not exactly|^bytes after the end of the request|did not negotiate TLS|^Host header|^Accept header"),
-        rapid("Browse", "TestBrowse", 800, 40000, shards=(8, 16), config_toml=_NET + "cache_size = 4\n", timeout=dict(quick=600, thorough=3000),
+        rapid("Browse", "TestBrowse", 800, 16000, shards=(8, 16), config_toml=_NET + "cache_size = 4\n", timeout=dict(quick=600, thorough=3000),
               retry_confirm=3, trust_unconfirmed=r"^request is not exactly|^bytes after the end of the request|did not negotiate TLS|^Host header|^Accept header"),
     ],
     manifest=dict(
@@ -371,7 +371,7 @@ PROPS["C05"] = dict(
     units=[
         enum("Cuts", "TestCuts", shards=(4, 16), config_toml=_C05CONF, timeout=dict(quick=600, thorough=3000)),
         enum("Stalls", "TestStalls", shards=(8, 16), config_toml=_C05CONF, timeout=dict(quick=600, thorough=1200)),
-        rapid("Prop", "TestProp", 1200, 60000, shards=(4, 16), config_toml=_C05CONF, timeout=dict(quick=600, thorough=3000)),
+        rapid("Prop", "TestProp", 1200, 20000, shards=(4, 16), config_toml=_C05CONF, timeout=dict(quick=600, thorough=3000)),
         rapid("Fan", "TestFan", 48, 1600, shards=(8, 16), config_toml=_C05CONF, timeout=dict(quick=600, thorough=3000)),
     ],
     exhaustive_claim=["Cuts", "Stalls"],
@@ -403,8 +403,8 @@ PROPS["C10"] = dict(
           "thread page holds at every loaded position the item the world puts there. Non-trivial: >= 2 pages and a call that crosses a "
           "page boundary while delivering / at least five keys. Distinct = distinct (chain, program) / stimulus."),
     units=[
-        rapid("Prop", "TestProp", 8000, 400000, config_toml="[network]\ntimeout_seconds = 1\ncache_size = 16\n"),
-        rapid("UIPaging", "TestUIPaging", 240, 8000, shards=(8, 16), config_toml=_NET + "cache_size = 16\n", timeout=dict(quick=600, thorough=3000),
+        rapid("Prop", "TestProp", 8000, 160000, config_toml="[network]\ntimeout_seconds = 1\ncache_size = 16\n"),
+        rapid("UIPaging", "TestUIPaging", 240, 4000, shards=(8, 16), config_toml=_NET + "cache_size = 16\n", timeout=dict(quick=600, thorough=3000),
               retry_confirm=3, trust_unconfirmed=r"holds .* at position|is not the frame of the current state"),
     ],
     manifest=dict(
@@ -433,7 +433,7 @@ PROPS["C11"] = dict(
           "of >= 2 actors. Distinct = distinct (sources, program) / (world, walk)."),
     units=[
         rapid("Prop", "TestProp", 40000, 2000000, config_toml=_NET),
-        rapid("Feeds", "TestFeeds", 600, 30000, shards=(8, 16), config_toml=_NET, timeout=dict(quick=600, thorough=3000)),
+        rapid("Feeds", "TestFeeds", 600, 12000, shards=(8, 16), config_toml=_NET, timeout=dict(quick=600, thorough=3000)),
     ],
     manifest=dict(
         text=("Stateful property-based testing of the feed splicer against a reference k-way merge, chunk by chunk, including "
@@ -513,7 +513,7 @@ PROPS["C07"] = dict(
           "history opens a further page and moves the cursor beyond the first preload window, or uses selection or command mode. "
           "Distinct = distinct (world, events)."),
     units=[
-        rapid("Prop", "TestProp", 4000, 160000, shards=(8, 16), config_toml=_NET, timeout=dict(quick=600, thorough=3000),
+        rapid("Prop", "TestProp", 4000, 60000, shards=(8, 16), config_toml=_NET, timeout=dict(quick=600, thorough=3000),
               retry_confirm=3, trust_unconfirmed=r"is not the frame of the current state"),
     ],
     manifest=dict(
@@ -543,7 +543,7 @@ PROPS["C20"] = dict(
           "loader: the configured argv is the file's list, string for string. Non-trivial: at least two hook runs, a placeholder-like "
           "argument and a link with shell-significant characters / a list with $, ~ or %. Distinct = distinct case."),
     units=[
-        rapid("Prop", "TestProp", 1200, 60000, shards=(8, 16), config_toml=_NET, timeout=dict(quick=600, thorough=3000)),
+        rapid("Prop", "TestProp", 1200, 20000, shards=(8, 16), config_toml=_NET, timeout=dict(quick=600, thorough=3000)),
         rapid("ConfigHook", "TestConfigHook", 4000, 200000, config_toml=_NET),
     ],
     manifest=dict(
@@ -572,7 +572,7 @@ PROPS["C19"] = dict(
           "Distinct = distinct file / colour block."),
     units=[
         enum("Colours", "TestColours"),
-        rapid("Files", "TestFiles", 700, 30000, shards=(8, 16), config_toml=_NET, timeout=dict(quick=600, thorough=3000)),
+        rapid("Files", "TestFiles", 700, 16000, shards=(8, 16), config_toml=_NET, timeout=dict(quick=600, thorough=3000)),
     ],
     exhaustive_claim=["Colours"],
     manifest=dict(
@@ -600,8 +600,8 @@ PROPS["C08"] = dict(
           "Non-trivial: at least five keys and more than five frames / at least two workers. Distinct = distinct stimulus. The "
           "schedule itself is not owned by the harness: this finds unsynchronised access pairs that occur, not every interleaving."),
     units=[
-        rapid("Stress", "TestStress", 400, 16000, shards=(8, 16), config_toml=_NET, timeout=dict(quick=600, thorough=3000), flaky_ok=True),
-        rapid("Fanout", "TestFanout", 160, 6000, shards=(4, 8), config_toml=_NET, timeout=dict(quick=600, thorough=3000), flaky_ok=True),
+        rapid("Stress", "TestStress", 400, 6000, shards=(8, 16), config_toml=_NET, timeout=dict(quick=600, thorough=3000), flaky_ok=True),
+        rapid("Fanout", "TestFanout", 160, 2400, shards=(4, 8), config_toml=_NET, timeout=dict(quick=600, thorough=3000), flaky_ok=True),
     ],
     manifest=dict(
         text=("Generated concurrent stimulus (keys from one goroutine each, resize poller, randomised latencies) under the Go race "
